@@ -467,7 +467,7 @@ func (x *extractor) stmt(s ast.Stmt) []path {
 func (x *extractor) loop(cond, post string, body []ast.Stmt, forever bool) []path {
 	bodyPaths := x.block(body)
 	iter := map[string]bool{} // event strings of one full iteration that comes back to the head
-	var leave []path         // iteration prefixes that leave the loop: break (-> fall) or return
+	var leave []path          // iteration prefixes that leave the loop: break (-> fall) or return
 	for _, p := range bodyPaths {
 		e := appendEv(cond, p.ev)
 		switch p.exit {
